@@ -77,7 +77,8 @@ def make_arg(I, ctx, name, spec, shape, wf):
 
 class FunctionVC:
     def __init__(self, src, ccls, shape, chips='int', cuts=None, hooks=None, unwind=16, prop=None,
-                 with_state=True, configure=None):
+                 with_state=True, configure=None, arg_makers=None):
+        self.arg_makers = arg_makers or {}
         self.src = src
         self.ccls = ccls
         self.shape = shape
@@ -140,12 +141,16 @@ class FunctionVC:
         self.sym_args = {}
         kwargs = {}
         for pname in params:
-            if pname == 'self' or pname not in argspecs:
+            if pname == 'self' or (pname not in argspecs and pname not in self.arg_makers):
                 continue
-            v = make_arg(I, ctx0, pname, argspecs[pname], shape, wf)
+            if pname in self.arg_makers:
+                v = self.arg_makers[pname](I, ctx0, wf, shape)
+            else:
+                v = make_arg(I, ctx0, pname, argspecs[pname], shape, wf)
             self.sym_args[pname] = v
             bindings[pname] = v
             kwargs[pname] = v
+        bindings['integral'] = (I.chips == 'int')
         bindings['a'] = tuple(self.sym_args[nm] for nm in getattr(ccls, 'argnames', ()) if nm in self.sym_args)
         ctx0.assume(And_(*wf))
         if getattr(ccls, 'symbolic_setup', None):
